@@ -252,6 +252,7 @@ class Translator:
         if m:
             return self.enum_ty(self.ix.enums.get('@%s:%s' % (m.group(1), m.group(2))), n, s0)
         if '*' in s:
+            s = re.sub(r'\b(std::)?uint8_t\b', 'unsigned char', s)      # clang keeps the typedef name inside a pointer type
             m = re.fullmatch(r'\s*(?:const (unsigned |signed )?char|(unsigned |signed )?char const)\s*\*\s*(const)?\s*(\*)?\s*(const)?\s*&?\s*', s)
             if m and not (m.group(4) and m.group(3)):
                 sg = (m.group(1) or m.group(2) or '').strip()
